@@ -202,6 +202,76 @@ example : ∃ g, fromEdgeArray ltInt (some id) [(0, 3), (3, 0), (0, 3)] none { s
     g.matrix.nRow = 4 ∧ g.matrix.entry 0 3 = 3 ∧ g.matrix.entry 1 2 = 0 := by
   refine ⟨_, rfl, ?_, ?_, ?_⟩ <;> decide +kernel
 
+/-- **no refusal of a valid edge array.** `from_edge_array` returns a graph whenever the edge array is not empty,
+    the weights (if given) match it in length, and — unless names are built (non-integer identifiers or
+    `reindex`) — the integer identifiers are non-negative. -/
+theorem edge_array_ok [DecidableEq α] (lt : α → α → Bool) (asInt : Option (α → Int))
+    (rows : List (α × α)) (weights : Option (List Rat)) (f : Flags)
+    (hne : rows ≠ []) (hw : ∀ w, weights = some w → w.length = rows.length)
+    (hids : asInt = none ∨ f.reindex = true ∨ ∀ v, asInt = some v → ∀ e ∈ rows, 0 ≤ v e.1 ∧ 0 ≤ v e.2) :
+    ∃ g, fromEdgeArray lt asInt rows weights f = .ok g := by
+  have hlen : (weights.getD (List.replicate rows.length 1)).length = rows.length := by
+    cases weights with
+    | none => simp
+    | some w => simpa using hw w rfl
+  have hkeys := keys_typedEdges lt rows _ f hlen
+  have hne' := typedEdges_ne_nil lt rows _ f hlen hne
+  unfold fromEdgeArray fromEdgeArrayWith
+  simp only
+  have h0 : ((weights.getD (List.replicate rows.length 1)).length != rows.length) = false := by
+    simp [hlen]
+  rw [h0]
+  simp only [Bool.false_eq_true, if_false]
+  -- the three identifier lists are non-empty with non-negative members
+  have hax : ∀ (sd : Option Nat) (ids : List α), ids ≠ [] →
+      (∀ x ∈ ids, ∃ e ∈ rows, x = e.1 ∨ x = e.2) → ∃ ax, axisOf lt asInt f.reindex sd ids = .ok ax := by
+    intro sd ids hidne hmem
+    apply axisOf_ok
+    rcases hids with h | h | h
+    · exact Or.inl h
+    · exact Or.inr (Or.inl h)
+    · refine Or.inr (Or.inr ⟨hidne, ?_⟩)
+      intro v hv x hx
+      obtain ⟨e, he, hxe | hxe⟩ := hmem x hx
+      · rw [hxe]; exact (h v hv e he).1
+      · rw [hxe]; exact (h v hv e he).2
+  by_cases hb : f.bipartite = true
+  · simp only [hb, if_true]
+    obtain ⟨ar, har⟩ := hax (f.shape.map (·.1))
+      ((typedEdges lt rows (weights.getD (List.replicate rows.length 1)) f).map (·.1.1))
+      (by intro h1; exact hne' (List.map_eq_nil_iff.mp h1))
+      (by intro x hx
+          obtain ⟨e, he, rfl⟩ := List.mem_map.mp hx
+          exact ⟨e.1, (hkeys _).mp (List.mem_map.mpr ⟨e, he, rfl⟩), Or.inl rfl⟩)
+    obtain ⟨ac, hac⟩ := hax (f.shape.map (·.2))
+      ((typedEdges lt rows (weights.getD (List.replicate rows.length 1)) f).map (·.1.2))
+      (by intro h1; exact hne' (List.map_eq_nil_iff.mp h1))
+      (by intro x hx
+          obtain ⟨e, he, rfl⟩ := List.mem_map.mp hx
+          exact ⟨e.1, (hkeys _).mp (List.mem_map.mpr ⟨e, he, rfl⟩), Or.inr rfl⟩)
+    rw [har]
+    simp only
+    rw [hac]
+    exact ⟨_, rfl⟩
+  · have hb' : f.bipartite = false := by simpa using hb
+    simp only [hb', Bool.false_eq_true, if_false]
+    obtain ⟨ax, hax'⟩ := hax (f.shape.map (·.1))
+      ((typedEdges lt rows (weights.getD (List.replicate rows.length 1)) f).flatMap fun e => [e.1.1, e.1.2])
+      (by
+        intro h1
+        cases hte : typedEdges lt rows (weights.getD (List.replicate rows.length 1)) f with
+        | nil => exact hne' hte
+        | cons e es => rw [hte] at h1; simp at h1)
+      (by intro x hx
+          obtain ⟨e, he, hxe⟩ := List.mem_flatMap.mp hx
+          simp only [List.mem_cons, List.not_mem_nil, or_false] at hxe
+          exact ⟨e.1, (hkeys _).mp (List.mem_map.mpr ⟨e, he, rfl⟩), hxe⟩)
+    rw [hax']
+    exact ⟨_, rfl⟩
+
+example : ([((0 : Int), (3 : Int)), (3, 0)] : List (Int × Int)) ≠ [] ∧
+    ∀ e ∈ ([((0 : Int), (3 : Int)), (3, 0)] : List (Int × Int)), 0 ≤ id e.1 ∧ 0 ≤ id e.2 := by decide
+
 /-- **smallest compatible shape.** Without `shape` and without reindexing the dimensions are the largest listed
     identifier plus one (rows: sources, columns: targets when bipartite; all nodes otherwise). -/
 theorem edge_array_shape_minimal (rows : List (Int × Int)) (weights : Option (List Rat)) (f : Flags) (g : Graph Int)
